@@ -112,7 +112,7 @@ func (e *fnEnc) siteAsserts(v ssa.Value, c *ssa.CallCommon, instr ssa.Instructio
 			}
 			props := cl.Props
 			if len(props) == 0 {
-				props = e.contract.Props
+				props = e.contract.AllProps()
 			}
 			tag := cl.Tag
 			if tag == "" {
@@ -172,6 +172,13 @@ func (e *fnEnc) call0(v ssa.Value, c *ssa.CallCommon, instr ssa.Instruction) {
 	if !e.vc.P.InModule(fn) {
 		e.libCall(v, fn, c, args, hint, instr)
 		return
+	}
+	if fn.Signature.Recv() != nil && len(args) > 0 {
+		if _, ok := c.Args[0].Type().Underlying().(*types.Pointer); ok {
+			if _, isAlloc := c.Args[0].(*ssa.Alloc); !isAlloc {
+				e.safety("nil", "recv", fmt.Sprintf("(not (= %s 0))", args[0]), instr.Pos(), "method "+fn.Name()+" called on a nil receiver")
+			}
+		}
 	}
 	contract := e.vc.P.Contract(fn)
 	switch {
@@ -284,7 +291,7 @@ func (e *fnEnc) applyContract(v ssa.Value, fn *ssa.Function, ct *FuncContract, c
 		}
 		props := r.Props
 		if len(props) == 0 {
-			props = ct.Props
+			props = append(append([]string{}, ct.Props...), ct.Extra["sweep"]...)
 		}
 		name := e.vc.ordinal(fmt.Sprintf("%s#pre:%s.%s", FuncKey(e.fn), short, tag))
 		e.vc.oblige(&Obligation{Name: name, Kind: "pre", Guard: e.guard(), Cond: f, Props: props, Pos: instr.Pos(), Src: "requires of " + short + ": " + r.Src})
@@ -327,6 +334,24 @@ func (e *fnEnc) applyContract(v ssa.Value, fn *ssa.Function, ct *FuncContract, c
 		e.vc.assume(sImp(e.guard(), f))
 	}
 	e.bindResults(v, fn.Signature, results)
+	e.assumeInvsAfterCall(fn, c, args, results)
+}
+
+// assumeInvsAfterCall: a contracted callee re-establishes the type invariants of the objects it was given and returns.
+func (e *fnEnc) assumeInvsAfterCall(fn *ssa.Function, c *ssa.CallCommon, args, results []string) {
+	for k, a := range c.Args {
+		if k < len(args) {
+			for _, f := range e.typeInvFormulas(args[k], a.Type(), e.cur) {
+				e.vc.assume(sImp(e.guard(), f.f))
+			}
+		}
+	}
+	res := fn.Signature.Results()
+	for k := 0; k < res.Len() && k < len(results); k++ {
+		for _, f := range e.typeInvFormulas(results[k], res.At(k).Type(), e.cur) {
+			e.vc.assume(sImp(e.guard(), f.f))
+		}
+	}
 }
 
 func env0(fn *ssa.Function) string {
@@ -398,7 +423,7 @@ func (e *fnEnc) inline(v ssa.Value, fn *ssa.Function, c *ssa.CallCommon, args []
 			}
 			props := r.Props
 			if len(props) == 0 {
-				props = ct.Props
+				props = append(append([]string{}, ct.Props...), ct.Extra["sweep"]...)
 			}
 			name := e.vc.ordinal(fmt.Sprintf("%s#pre:%s.%s", FuncKey(e.fn), fn.Name(), tag))
 			e.vc.oblige(&Obligation{Name: name, Kind: "pre", Guard: e.guard(), Cond: f, Props: props, Pos: instr.Pos(), Src: "requires of " + fn.Name() + ": " + r.Src})
@@ -580,7 +605,9 @@ func (e *fnEnc) appendBuiltin(v ssa.Value, c *ssa.CallCommon) {
 	newLen := fmt.Sprintf("(+ (c-len %s) %s)", s, addLen)
 	row := e.vc.fresh("appendrow", "(Array Int "+e.S().SortOf(st.Elem())+")")
 	// the old window is preserved (quantified; only used when a proof needs it)
-	e.vc.assume(fmt.Sprintf("(forall ((i Int)) (! (=> (and (<= (c-off %s) i) (< i (+ (c-off %s) (c-len %s)))) (= (select %s i) (select %s i))) :pattern ((select %s i))))", s, s, s, row, oldRow, row))
+	e.vc.nfresh++
+	bv := fmt.Sprintf("q!ai!%d", e.vc.nfresh)
+	e.vc.assume(fmt.Sprintf("(forall ((%s Int)) (! (=> (and (<= (c-off %s) %s) (< %s (+ (c-off %s) (c-len %s)))) (= (select %s %s) (select %s %s))) :pattern ((select %s %s))))", bv, s, bv, bv, s, s, row, bv, oldRow, bv, row, bv))
 	e.setHeap(ek, fmt.Sprintf("(store %s %s %s)", h, r, row))
 	e.vc.assume(fmt.Sprintf("(>= %s %s)", capn, newLen))
 	e.setVal(v, fmt.Sprintf("(mk-slc %s (c-off %s) %s %s)", r, s, newLen, capn))
